@@ -53,6 +53,21 @@ def c12_run_replicas(spec, ops, seed, tier, phase, shared, counters,
     outs = []
     np_seed = core.h64(f"{seed}|np") % (2 ** 32)
     usable = None
+    keep_alive = []
+    foreign = None
+    if spec["kind"] == "yaml" and seed % 3 == 0:
+        import yaml
+        from . import docgen
+        try:
+            base = yaml.safe_load(spec["text"])
+            like = docgen.gen_doc(core.stream(seed, "like"), like=base,
+                                  step_limit=None)
+            if len(like["subnets"]) == len(base["subnets"]) and \
+                    max(like["subnets"]) == max(base["subnets"]):
+                foreign, _ = configs.build(
+                    {"kind": "yaml", "text": docgen.emit(like)})
+        except Exception:
+            foreign = None
     for mt in MODE_TRIPLES:
         modes = {"fully_obs": mt[0], "flat_actions": mt[1], "flat_obs": mt[2]}
         if phase == "seeded" and seed_before:
@@ -63,6 +78,20 @@ def c12_run_replicas(spec, ops, seed, tier, phase, shared, counters,
                      scripted=(phase == "scripted"), scenario=scenario,
                      cfg=cfg, record=True)
         try:
+            if foreign is not None:
+                # foreign activity: another scenario with the same layout but
+                # other subnet sizes gets its own parameterised environment
+                # while this replica is alive
+                from nasim.envs import NASimEnv
+                st = np.random.get_state()
+                try:
+                    keep_alive.append(NASimEnv(foreign, fully_obs=mt[0],
+                                               flat_actions=False,
+                                               flat_obs=mt[2]))
+                except Exception:
+                    pass
+                np.random.set_state(st)
+                counters.hit("fault.foreign_activity.like_env")
             if usable is None:
                 # decide once (needs both tables): build a throw-away param
                 # table from this scenario
